@@ -253,8 +253,10 @@ class Loader(yaml.SafeLoader):
             try:
                 node = self.__savorize(node, recognized_type)
             except SeasoningError as e:
+                message = e.args[0] if e.args else (
+                        'The input was rejected by _yatiml_savorize()')
                 raise RecognitionError(
-                        '{}\n{}'.format(node.start_mark, e.args[0]))
+                        '{}\n{}'.format(node.start_mark, message))
         logger.debug('Savorized, now {}'.format(node))
 
         # process subnodes
